@@ -474,6 +474,8 @@ class Harness:
             self.uninstall()
         if s.aborted and s.aborted not in ("end", "all threads finished") and outcome == "?":
             outcome = "aborted:" + s.aborted
+        if s.abort_index is not None:
+            del s.events[s.abort_index:]        # whatever unwinding threads logged after the cut
         return RunResult(events=s.events, outcome=outcome, schedule=list(s.taken),
                          states_dir_listing=listing, saves=self.saves, post=post,
                          decisions=s.decisions,
